@@ -434,6 +434,7 @@ def check_envelope(pid):
                        "boundaries (plain, in a slice, in a map) through args.Add, meta.Add, literal.Any, invocation.WithArgument: "
                        "stored exactly or rejected")
         if pid == "C06":
+            ucan_part(c, pid, q)
             tr = c.drive("envbytes", 400 if q else 0)
             c.validate("envbytes", "TraceEnvelope", "TraceEnvelope.cfg", tr, timeout=3000,
                        rule=("400 random single mutations" if q else "EVERY single-bit flip and every 1-byte insertion / deletion / "
@@ -496,6 +497,7 @@ def check_C17(tier):
                      ("IdentityCidTrusted", "FailClosed"), ("BytesAliased", "RoundTrip")]:
         c.mc("Container", "MC_C17.cfg", dict(N=2, MaxDamage=1, Deviations='{"%s"}' % dev, Emit=""), expect_violation=[inv, "NeverPartial"],
              label="sensitivity: " + dev)
+    ucan_part(c, "C17", q)
     c.replay("container", cp, rule="%d real tokens (delegations and invocations, mixed algorithms) in every insertion order x 4 formats x "
              "{bytes,stream} writer x {bytes,stream} reader x <=%d damage actions (entry: flipped data bit, re-sealed data with recomputed "
              "CID, flipped / swapped block CID, truncated / zero-length / oversize section, non-bytes element; frame: version, extra key, "
@@ -667,6 +669,18 @@ def session_part(c, pid, q):
              expect_violation=["Historyless"], label="sensitivity: memo state on the token (%s) breaks Historyless" % dev)
 
 
+def ucan_part(c, pid, q):
+    """Ucan.tla: the end-to-end story (issue, invoke, pack, adversary on the wire, read, execute from the container)."""
+    cp = c.case_path(pid + "ucan")
+    c.mc("MC_Ucan", "MC_Ucan.cfg", dict(MaxStore=1 if q else 2, Fmts="U_Fmts1", Emit="UEmit"), timeout=2400, case_file=cp,
+         label="end to end: EndToEnd (allowed => backed by held authority), NoHijack, Delivered, whatever the adversary does on the wire")
+    c.replay("ucan:" + pid, cp, rule="Ucan.tla: <=%d issued delegations (any issuer incl. the adversary, powerline) x invocation x every proof list x "
+             "one wire action (flip / rewrite / re-sign by the adversary / drop / repeat) on any entry of the container, materialized with real "
+             "keys, sealed tokens, all four container formats and both reader variants; the invocation is taken from the container "
+             "(GetInvocation) and validated with the container as loader; non-trivial = a wire action or a denied execution" % (1 if q else 2))
+    os.remove(cp)
+
+
 def check_chain(pid):
     def run(tier):
         c = Ctx(pid, tier)
@@ -695,6 +709,8 @@ def check_chain(pid):
                        rule="random public stores of <=4 real delegations (any issuer/audience/subject incl. powerline, 4 commands, 4 policies) x "
                             "3 invocations; EVERY proof list over the store tried on the real code; judged against Authority!Backed")
         session_part(c, pid, q)
+        if pid in ("C01", "C05"):
+            ucan_part(c, pid, q)
         if pid in ("C03", "C05"):
             tr = c.drive("catalogue", 1)
             c.validate("catalogue", "TracePolicy", "TracePolicy.cfg", tr,
